@@ -189,11 +189,7 @@ func (n *normalizer) normalizeFunc(fd *ast.FuncDecl) (bool, error) {
 			continue
 		}
 		h := p.FuncObj[hfn]
-		if h == nil || h.Body == nil || len(h.Body.List) != 1 {
-			continue
-		}
-		rs, ok := h.Body.List[0].(*ast.ReturnStmt)
-		if !ok || len(rs.Results) != len(as.Lhs) {
+		if h == nil || h.Body == nil || len(h.Body.List) == 0 {
 			continue
 		}
 		subst := map[types.Object]string{}
@@ -201,12 +197,73 @@ func (n *normalizer) normalizeFunc(fd *ast.FuncDecl) (bool, error) {
 			subst[hr] = recv.Name()
 		}
 		var texts []string
-		for _, r := range rs.Results {
-			t, err := n.exprText(r, subst)
-			if err != nil {
-				return false, err
+		rs, ok := h.Body.List[len(h.Body.List)-1].(*ast.ReturnStmt)
+		if !ok {
+			continue
+		}
+		if len(h.Body.List) == 1 && len(rs.Results) == len(as.Lhs) {
+			for _, r := range rs.Results {
+				t, err := n.exprText(r, subst)
+				if err != nil {
+					return false, err
+				}
+				texts = append(texts, t)
 			}
-			texts = append(texts, t)
+		} else {
+			// named results, each assigned exactly once by `r = e`, then a bare
+			// `return` (or `return r1, r2, …`); a result used in a later
+			// expression stands for the text assigned to it
+			ros := resultObjs(info, h)
+			if len(ros) != len(as.Lhs) {
+				continue
+			}
+			okForm := true
+			for i, ro := range ros {
+				if ro == nil {
+					okForm = false
+				} else if len(rs.Results) != 0 && (len(rs.Results) != len(ros) || identObj(info, rs.Results[i]) != ro) {
+					okForm = false
+				}
+			}
+			byRes := map[types.Object]string{}
+			for _, hs := range h.Body.List[:len(h.Body.List)-1] {
+				ha, isAs := hs.(*ast.AssignStmt)
+				if !okForm || !isAs || ha.Tok != token.ASSIGN || len(ha.Lhs) != len(ha.Rhs) {
+					okForm = false
+					break
+				}
+				for k, l := range ha.Lhs {
+					lo := identObj(info, l)
+					isRes := false
+					for _, ro := range ros {
+						if ro == lo && lo != nil {
+							isRes = true
+						}
+					}
+					if _, dup := byRes[lo]; !isRes || dup {
+						okForm = false
+						break
+					}
+					sub2 := map[types.Object]string{}
+					for o, t := range subst {
+						sub2[o] = t
+					}
+					for o, t := range byRes {
+						sub2[o] = "(" + t + ")"
+					}
+					t, err := n.exprText(ha.Rhs[k], sub2)
+					if err != nil {
+						return false, err
+					}
+					byRes[lo] = t
+				}
+			}
+			if !okForm || len(byRes) != len(ros) {
+				continue
+			}
+			for _, ro := range ros {
+				texts = append(texts, byRes[ro])
+			}
 		}
 		if err := n.edit(call.Pos(), call.End(), strings.Join(texts, ", ")); err != nil {
 			return false, err
